@@ -3,6 +3,7 @@ package core
 import (
 	"fmt"
 	"go/types"
+	"sort"
 
 	"golang.org/x/tools/go/ssa"
 )
@@ -53,16 +54,73 @@ type havocSet struct {
 
 func (x *Exec) loopHavocSet(fr *frame, li *loopInfo) *havocSet {
 	hs := &havocSet{cells: map[*ssa.Alloc]bool{}, sorts: map[Sort]bool{}}
+	var blocks []*ssa.BasicBlock
+	for b := range li.body {
+		blocks = append(blocks, b)
+	}
+	x.scanHavoc(fr, blocks, hs, nil, 0)
+	return hs
+}
+
+// resolveClosure: the closure a called value denotes, when it is a MakeClosure
+// directly or a load of a local variable that only ever holds one MakeClosure.
+func resolveClosure(v ssa.Value) *ssa.MakeClosure {
+	switch t := v.(type) {
+	case *ssa.MakeClosure:
+		return t
+	case *ssa.UnOp:
+		a, ok := t.X.(*ssa.Alloc)
+		if !ok || a.Referrers() == nil {
+			return nil
+		}
+		var mc *ssa.MakeClosure
+		for _, r := range *a.Referrers() {
+			if st, ok := r.(*ssa.Store); ok && st.Addr == a {
+				m, ok := st.Val.(*ssa.MakeClosure)
+				if !ok || (mc != nil && mc != m) {
+					return nil
+				}
+				mc = m
+			}
+		}
+		return mc
+	}
+	return nil
+}
+
+// scanHavoc accumulates what the given blocks may write. bind maps the free
+// variables of a closure body to the values bound at its MakeClosure.
+func (x *Exec) scanHavoc(fr *frame, blocks []*ssa.BasicBlock, hs *havocSet, bind map[*ssa.FreeVar]ssa.Value, depth int) {
 	addType := func(t types.Type) {
 		for _, s := range x.E.memSorts(t) {
 			hs.sorts[s] = true
 		}
 	}
-	for b := range li.body {
+	root := func(v ssa.Value) *ssa.Alloc {
+		for {
+			switch t := v.(type) {
+			case *ssa.Alloc:
+				return t
+			case *ssa.FieldAddr:
+				v = t.X
+			case *ssa.IndexAddr:
+				v = t.X
+			case *ssa.FreeVar:
+				if b, ok := bind[t]; ok {
+					v = b
+					continue
+				}
+				return nil
+			default:
+				return nil
+			}
+		}
+	}
+	for _, b := range blocks {
 		for _, in := range b.Instrs {
 			switch in := in.(type) {
 			case *ssa.Store:
-				if a := rootAlloc(in.Addr); a != nil && x.localCell(a) {
+				if a := root(in.Addr); a != nil && x.localCell(a) {
 					hs.cells[a] = true
 				} else {
 					addType(in.Val.Type())
@@ -89,13 +147,28 @@ func (x *Exec) loopHavocSet(fr *frame, li *loopInfo) *havocSet {
 					hs.sorts[SBV32] = true
 				}
 			case *ssa.Call:
+				if mc := resolveClosure(in.Call.Value); mc != nil && depth < 3 {
+					fn := mc.Fn.(*ssa.Function)
+					nb := map[*ssa.FreeVar]ssa.Value{}
+					for i, fv := range fn.FreeVars {
+						bv := mc.Bindings[i]
+						// a binding that is itself a free variable of the enclosing closure
+						if ofv, ok := bv.(*ssa.FreeVar); ok {
+							if ob, ok := bind[ofv]; ok {
+								bv = ob
+							}
+						}
+						nb[fv] = bv
+					}
+					x.scanHavoc(fr, fn.Blocks, hs, nb, depth+1)
+					continue
+				}
 				x.callHavoc(fr, &in.Call, hs)
-			case *ssa.Defer, *ssa.RunDefers, *ssa.Go:
+			case *ssa.Defer, *ssa.Go:
 				hs.all = true
 			}
 		}
 	}
-	return hs
 }
 
 // callHavoc over-approximates what a call inside a loop may write.
@@ -182,6 +255,24 @@ func (x *Exec) enterLoop(fr *frame, li *loopInfo, s *State) *State {
 		}
 	}
 	hs := x.loopHavocSet(fr, li)
+	// compiler-generated range counters: -1 <= rangeindex (checked like a declared invariant)
+	var autoInv []*ssa.Alloc
+	for a := range hs.cells {
+		if a.Comment == "rangeindex" && a.Parent() == fr.fn {
+			if _, ok := s.Cells[a]; ok {
+				autoInv = append(autoInv, a)
+			}
+		}
+	}
+	sort.Slice(autoInv, func(i, j int) bool { return autoInv[i].Pos() < autoInv[j].Pos() })
+	riInv := func(st *State, a *ssa.Alloc) Term {
+		v := st.Cells[a].L[0]
+		return And(BVCmp("bvsle", BVLitI(64, -1), v), BVCmp("bvsle", v, BVLitI(64, 1<<40)))
+	}
+	for k, a := range autoInv {
+		x.C.Oblige(fmt.Sprintf("%s#loop%d.rangeindex%d.entry", shortFn(fr.fn), li.ordinal, k), "invariant", pos, "range counter >= -1 (automatic)", s.Reach, riInv(s, a))
+	}
+	fr.autoInv[li.header] = autoInv
 	n := s.Clone()
 	if hs.clos {
 		for a := range n.Cells {
@@ -198,6 +289,7 @@ func (x *Exec) enterLoop(fr *frame, li *loopInfo, s *State) *State {
 	switch {
 	case hs.all:
 		x.havocHeaps(n, nil, "loop")
+		x.assumeFrame(n, AllLeafSorts)
 	default:
 		var sorts []Sort
 		for _, k := range AllLeafSorts {
@@ -207,6 +299,7 @@ func (x *Exec) enterLoop(fr *frame, li *loopInfo, s *State) *State {
 		}
 		if len(sorts) > 0 {
 			x.havocHeaps(n, sorts, "loop")
+			x.assumeFrame(n, sorts)
 		}
 		if hs.maps {
 			x.baseCounter++
@@ -218,7 +311,9 @@ func (x *Exec) enterLoop(fr *frame, li *loopInfo, s *State) *State {
 			n.Frontier = nf
 		}
 	}
-	// values already computed stay below the (possibly advanced) frontier
+	for _, a := range autoInv {
+		x.C.Assume(Implies(n.Reach, riInv(n, a)))
+	}
 	if lc != nil {
 		env := x.invEnv(fr, n)
 		for _, inv := range lc.Invariants {
@@ -234,6 +329,13 @@ func (x *Exec) enterLoop(fr *frame, li *loopInfo, s *State) *State {
 
 func (x *Exec) backEdge(fr *frame, li *loopInfo, s *State, cond Term) {
 	lc := x.loopContract(fr, li)
+	for k, a := range fr.autoInv[li.header] {
+		if c, ok := s.Cells[a]; ok {
+			v := c.L[0]
+			x.C.Oblige(fmt.Sprintf("%s#loop%d.rangeindex%d.preserved.%d", shortFn(fr.fn), li.ordinal, k, x.bump(fr, "ri")), "invariant", "", "range counter >= -1 (automatic)", cond,
+				And(BVCmp("bvsle", BVLitI(64, -1), v), BVCmp("bvsle", v, BVLitI(64, 1<<40))))
+		}
+	}
 	if lc == nil {
 		return
 	}
